@@ -41,6 +41,8 @@ M = {
  'C13-jmespath-step-slice-reset': ('C13', "jmespath compile(), state rhs_slice_expression_step, case ']': the reset slic = slice{} after a three-part slice is removed", "one expression with two slices, the earlier written with a step part and a non-default bound, a later one omitting that part, e.g. a[::-1] | [:3]", None),
  'C16-merge-nonobject-member-asis': ('C16', "apply_merge_patch_: when the member exists and its old value is not an object, the patch value is inserted as it is instead of being merged", "target member exists with a non-object value, patch value for it is an object containing a null at some depth, e.g. {\"a\":1} patched with {\"a\":{\"b\":null,\"c\":2}}",
    "mergepatch/apply_merge_patch_level loop_invariant_step and postcondition 3 (a non-null patch value replaces the member by the recursive merge - one recursion per such member) -> VIOLATION, replay REPRODUCED; the extraction rules first had to learn the new statement shape (an un-merged insertion is an event of its own)"),
+ 'C15-move-definite-path-early': ('C15', "apply_patch, move: definite_path(target, location) is computed before the from value is removed instead of after", "a move whose path ends in '-' and whose from removal changes the array named by the path prefix, e.g. /a/0 to /a/-",
+   "first missed (the events carried no order between definite_path and the edits); the monitor of unit jsonpatch now stamps definite_path with the number of edits made: patch_operation assertion (the definite form is computed on the document the insertion is applied to) -> VIOLATION, replay REPRODUCED"),
  'C18-csv-minimal-quote-linebreak': ('C18', "csv write_string_value (quote_style minimal): quotes a field for characters of line_delimiter_ only, not for every CR/LF", "minimal quoting and a field containing a lone CR (default delimiter LF) or LF (delimiter CR)", None),
  'C01-grisu-pow2-lower-boundary': ('C01', "grisu3 normalized_boundaries, power-of-two branch: mi.f = (v.f << 2) - 2 instead of - 1", "a double that is an exact power of two at one of ~250 exponents (smallest positive: 2^64), default shortest format", None),
 }
